@@ -64,6 +64,11 @@ def run_one(s):
     par = U.mk_params(names, rows)
     tr = {"pts": [U.q_of(c, r) for c, r in zip(coords, rows)], "bits": [], "shape_ok": False, "exc": "",
           "nv_ok": set(dom.necessary_variables) == set(names)}
+    # what the OPERAND objects of a Boolean combination declare after the combination was built (they stay usable on their own)
+    tr["nv_l"], tr["nv_r"], tr["nv_parts"] = [], [], False
+    if e["k"] in ("union", "cut", "and"):
+        tr["nv_l"], tr["nv_r"] = sorted(dom.domain_a.necessary_variables), sorted(dom.domain_b.necessary_variables)
+        tr["nv_parts"] = True
     r = watched(lambda: dom._contains(pts, par))
     if r[0] != "ok":
         tr["exc"] = r[1] if len(r) > 1 else "hang"
